@@ -489,6 +489,29 @@ def run_mc(res, name, module, cfg, workers=8, timeout=3600, expect_violation=Non
             raise ToolError(f"{name}: actions never taken (vacuous configuration): {never}")
 
 
+def graph_histories(res, name, module, cfg, stride=1, timeout=3600):
+    """(G) dumps the state graph of a model-checking configuration and returns the path of an ND-JSON file with
+    one history per transition (tools/graph.py). The model is checked while it is dumped."""
+    import graph
+    dot = os.path.join(OUT, "tmp", f"{res.pid}-{os.getpid()}.dot")
+    modp = os.path.join(SPEC, "mc", module)
+    cfgp = os.path.join(SPEC, "mc", cfg)
+    t = time.time()
+    r = run_tlc(modp, cfgp, workers=1, timeout=timeout, extra=["-dump", "dot,actionlabels", dot], xmx="6g")
+    if "Model checking completed. No error has been found" not in r["out"]:
+        raise ToolError(f"{name}: TLC did not complete cleanly while dumping the graph:\n{r['out'][-3000:]}")
+    hs, nedges, nstates = graph.histories(dot, parse_tla, stride=stride)
+    os.remove(dot)
+    path = os.path.join(OUT, "tmp", f"{res.pid}-{os.getpid()}.hist")
+    with open(path, "w") as g:
+        for h in hs:
+            g.write(json.dumps(h) + "\n")
+    res.add_mc(name, r)
+    res.notes[name] = dict(graph_states=nstates, graph_transitions=nedges, histories=len(hs), stride=stride)
+    log(f"[graph] {name}: {nstates} states, {nedges} transitions, {len(hs)} histories ({time.time() - t:.1f}s)")
+    return path, len(hs)
+
+
 # ------------------------------------------------------------------ the checks
 
 def tr(name):
@@ -667,7 +690,22 @@ def check_C06(res):
     return "(M) the recursive tree walk of lookup_impl equals the declarative Zone!LookupBase for every zone in scope; (V) random zones (small alphabet {a,b,c,*} to depth 4, <= 40 records, NS at various depths, CNAMEs, ENTs; every third zone from the richer shared generator) x every name within two labels of every node and ancestor x option combinations x 9 types, three API functions; names outside the zone for the wrong-zone check"
 
 
+def check_C22(res):
+    q = res.tier == "quick"
+    run_mc(res, "MC_Catalog/fixed", "MCC.tla", "MCC_fixed.cfg", workers=4)
+    run_mc(res, "MC_Catalog/as_found (pruning drops data-bearing ancestors)", "MCC.tla", "MCC_as_found.cfg", workers=2, expect_violation="Refines")
+    if not q:
+        run_mc(res, "MC_Catalog/two classes", "MCC.tla", "MCC_two_classes.cfg", workers=8)
+    hist, nh = graph_histories(res, "MC_Catalog/graph", "MCC.tla", "MCC_graph_quick.cfg" if q else "MCC_fixed.cfg")
+    v = trace_stage(res, ["catalog", "replay", hist], "TraceCatalog", "catalog/graph-replay", ["C22"])
+    os.remove(hist)
+    res.notes["catalog/graph-replay"]["transitions_covered_by_validated_impl_traces"] = v["records"] - v["nbad"]
+    trace_stage(res, ["catalog", "random", res.seed, 250 if q else 8000], "TraceCatalog", "catalog/random", ["C22"])
+    return "(M) every history of inserts/removes over 6 nested names x 2 entry kinds (729 states) and over 2 classes: tree-with-pruning = abstract map, tree walk = longest suffix, iteration = entries, remove leaves other entries untouched; (G) one history per transition of that state graph replayed into the real HashMapTreeCatalog (quick: the 4-name graph) and (V) validated; random histories of 2-15 operations over three name pools (case variants, root entry) in 1-3 of the classes IN/CH/HS/NONE with all three entry kinds, probes = every pool name, x.<name>, an upper-case variant and an unrelated name in every class; SingleZoneCatalog probes"
+
+
 CHECKS = {
+    "C22": check_C22,
     "C06": check_C06, "C20": check_C20, "C21": check_C21,
     "C11": check_C11,
     "C12": check_C12, "C13": check_C13,
